@@ -155,3 +155,18 @@ pub fn run(reg: &[Box<dyn TypeOps>], cfg: &Cfg, out: &mut dyn Write) {
         let _ = D::Default;
     }
 }
+
+/// re-execute recorded `B` left-hand sides (replay / shrinking)
+pub fn exec_line(reg: &[Box<dyn TypeOps>], ar: &mut Arena, ar2: &mut Arena, lhs: &str, out: &mut dyn Write) {
+    let f: Vec<&str> = lhs.split(' ').collect();
+    assert_eq!(f[0], "B");
+    let tid: usize = f[1].parse().unwrap();
+    let a16: usize = f[3].parse().unwrap();
+    let bytes = crate::unhex(f[6]);
+    let place = match f[2] { "E" => Place::End, "S" => Place::Start, _ => Place::Mid((a16 + 16 - (ar.addr_mod(0, 16) + 256) % 16) % 16) };
+    let sfx = if f[5] == "-" { None } else { Some(crate::unhex(f[5])) };
+    write!(out, "{} => ", lhs).unwrap();
+    out.flush().unwrap();
+    let (_, r) = observe(reg[tid].as_ref(), ar, ar2, &bytes, place, f[4] == "P1", sfx.as_deref());
+    writeln!(out, "{}", r).unwrap();
+}
